@@ -220,11 +220,22 @@ def run(ck):
         for n2 in _ast.walk(lp):
             if isinstance(n2, _ast.For) and n2 is not lp and any(isinstance(y, (_ast.Yield,)) for y in _ast.walk(n2)):
                 inner_loops.append(n2)
-    ck.floor("C03.5 insertion loops", len(inner_loops), 1)
+    def judge_count(cnt, w):
+        absd = [x for x in T.subterms(cnt) if x[0] == "call" and x[1] == "abs"]
+        sym = bool(absd) and cnt == T.p_sub(absd[0], C(1)) and \
+            any(y[0] == "attr" and y[2] == "siteId" for y in T.subterms(absd[0]))
+        if sym:
+            ck.ok("C03.5", short(gen) + ":insertion-count", w, "insertions per gap = |difference of query label numbers| - 1", T.show(cnt)[:160])
+        else:
+            ck.violation("C03.5", short(gen) + ":insertion-count", w, "the number of I operations emitted for a gap is not "
+                         "|difference of query label numbers| - 1 computed symmetrically for both strands",
+                         found=f"run length {T.show(cnt)[:200]}", required="abs(current.query.siteId - previousQuery) - 1")
     done = False
     for pa in explore(ck, gen, unroll=(1, 2), truthy_elems=True):
         for e in pa.events:
-            if e.kind == "foriter" and e.node in inner_loops and not done:
+            if done:
+                break
+            if e.kind == "foriter" and e.node in inner_loops:
                 it = e.term
                 done = True
                 w = where(gen, e.node)
@@ -237,15 +248,16 @@ def run(ck):
                         cnt = T.p_sub(a[1], a[0])
                 if cnt is None:
                     raise AnalysisError(f"{w}: insertion loop is not a range(...): {T.show(it)[:160]}")
-                absd = [x for x in T.subterms(cnt) if x[0] == "call" and x[1] == "abs"]
-                sym = bool(absd) and cnt == T.p_sub(absd[0], C(1)) and \
-                    any(y[0] == "attr" and y[2] == "siteId" for y in T.subterms(absd[0]))
-                if sym:
-                    ck.ok("C03.5", short(gen) + ":insertion-count", w, "insertions per gap = |difference of query label numbers| - 1", T.show(cnt)[:160])
-                else:
-                    ck.violation("C03.5", short(gen) + ":insertion-count", w, "the number of I operations emitted for a gap is not "
-                                 "|difference of query label numbers| - 1 computed symmetrically for both strands",
-                                 found=f"range length {T.show(cnt)[:200]}", required="abs(current.query.siteId - previousQuery) - 1")
+                judge_count(cnt, w)
+            elif e.kind == "yield" and e.term[0] == "star":
+                # yield from itertools.repeat(INSERTION, n)  /  yield from [INSERTION] * n
+                rep = e.term[1]
+                cnt = None
+                if rep[0] == "call" and rep[1] in ("itertools.repeat", "repeat") and len(rep[2]) == 2:
+                    cnt = rep[2][1]
+                if cnt is not None:
+                    done = True
+                    judge_count(cnt, where(gen, e.node))
     if not done:
         raise AnalysisError(f"{gen.where}: insertion loop was not reached on a one-iteration path")
     # inside the insertion loop the query cursor must not be moved label by label
